@@ -66,6 +66,26 @@ theorem C17_slice_get (u : U32) (a b i : Nat) (hab : a ≤ b) (hb : b ≤ u.len)
 theorem C17_slice_full (u : U32) : u.slice 0 u.len = u := by
   cases u; simp [U32.slice, U32.len]
 
+/-- **every slice function, every spelling of a range**: the four functions `Utf32Str::slice`, `Utf32Str::slice_u32`,
+    `Utf32String::slice`, `Utf32String::slice_u32` — their bound arithmetic regenerated from the source on every run — turn any
+    pair of bounds into exactly the range of the content that `RangeBounds` denotes, keeping the variant -/
+theorem C17_slice_ranges :
+    Gen.sliceBoundsAll.map (fun sb => (sb.recv, sb.fn)) =
+      [("Utf32Str", "slice"), ("Utf32Str", "slice_u32"), ("Utf32String", "slice"), ("Utf32String", "slice_u32")] ∧
+    ∀ sb ∈ Gen.sliceBoundsAll, sb.shapeOk = true ∧ ∀ (u : U32) (lo hi : Bnd), u.sliceVia sb lo hi = u.slice lo.startOf (hi.endOf u.len) := by
+  refine ⟨by decide, ?_⟩
+  intro sb h
+  simp only [Gen.sliceBoundsAll, List.mem_cons, List.not_mem_nil, or_false] at h
+  rcases h with rfl | rfl | rfl | rfl <;> refine ⟨rfl, ?_⟩ <;> intro u lo hi <;> cases lo <;> cases hi <;> rfl
+
+/-- so a slice by any pair of bounds has the length, characters and variant of that window of the content -/
+theorem C17_slice_ranges_get (sb : Gen.SliceBounds) (hsb : sb ∈ Gen.sliceBoundsAll) (u : U32) (lo hi : Bnd) (i : Nat)
+    (hab : lo.startOf ≤ hi.endOf u.len) (hb : hi.endOf u.len ≤ u.len) (hi' : i < hi.endOf u.len - lo.startOf) :
+    (u.sliceVia sb lo hi).len = hi.endOf u.len - lo.startOf ∧ (u.sliceVia sb lo hi).get i = u.get (lo.startOf + i) ∧
+      (u.sliceVia sb lo hi).rep = u.rep := by
+  rw [(C17_slice_ranges.2 sb hsb).2 u lo hi]
+  exact C17_slice_get u _ _ i hab hb hi'
+
 /-- cutting a string by its cluster lengths is a segmentation when the lengths are positive and add up -/
 theorem cutClusters_flatten : ∀ (ks : List Nat) (s : List Nat), ks.foldl (· + ·) 0 = s.length →
     (cutClusters s ks).flatten = s := by
@@ -96,5 +116,6 @@ theorem cutClusters_flatten : ∀ (ks : List Nat) (s : List Nat), ks.foldl (· +
 example : mkUtf32 [97, 13, 10, 98] [[97], [13, 10], [98]] = ⟨.unicode, [97, 10, 98]⟩ := by decide
 example : mkUtf32 [97, 98] [[97], [98]] = ⟨.ascii, [97, 98]⟩ := by decide
 example : AsciiSeg [97, 98] [[97], [98]] := by intro _; rfl
+example : ∀ sb ∈ Gen.sliceBoundsAll, (U32.sliceVia sb ⟨.ascii, [97, 98, 99]⟩ (.excl 0) .unb).content = [98, 99] := by decide
 
 end NucleoVerif
